@@ -635,6 +635,91 @@ type c13Outermost struct {
 	V int32 `thrift:"9"`
 }
 
+// c13EnumTwins: what the tag of one field says (enum) says nothing about other uses of the same Go type in the same
+// struct: the bytes are those of a twin type whose enum fields have Go types of their own, declared in both orders
+type c13E8 int8
+type c13E16 int16
+type c13E64 int64
+type c13EI int
+type c13EnumShared struct {
+	K8  int8           `thrift:"1,enum"`
+	P8  int8           `thrift:"2"`
+	K16 int16          `thrift:"3,enum"`
+	P16 int16          `thrift:"4"`
+	K64 int64          `thrift:"5,enum"`
+	P64 int64          `thrift:"6"`
+	KI  int            `thrift:"7,enum"`
+	PI  int            `thrift:"8"`
+	L   []int64        `thrift:"9"`
+	M   map[int8]int16 `thrift:"10"`
+	N   struct {
+		Q int64 `thrift:"1"`
+		R int8  `thrift:"2"`
+	} `thrift:"11"`
+}
+type c13EnumOwn struct {
+	K8  c13E8          `thrift:"1,enum"`
+	P8  int8           `thrift:"2"`
+	K16 c13E16         `thrift:"3,enum"`
+	P16 int16          `thrift:"4"`
+	K64 c13E64         `thrift:"5,enum"`
+	P64 int64          `thrift:"6"`
+	KI  c13EI          `thrift:"7,enum"`
+	PI  int            `thrift:"8"`
+	L   []int64        `thrift:"9"`
+	M   map[int8]int16 `thrift:"10"`
+	N   struct {
+		Q int64 `thrift:"1"`
+		R int8  `thrift:"2"`
+	} `thrift:"11"`
+}
+type c13EnumSharedRev struct {
+	P8  int8  `thrift:"2"`
+	K8  int8  `thrift:"1,enum"`
+	P64 int64 `thrift:"6"`
+	K64 int64 `thrift:"5,enum"`
+}
+type c13EnumOwnRev struct {
+	P8  int8   `thrift:"2"`
+	K8  c13E8  `thrift:"1,enum"`
+	P64 int64  `thrift:"6"`
+	K64 c13E64 `thrift:"5,enum"`
+}
+
+func c13EnumTwins(c *Ctx) {
+	for vi, x := range []int64{1, -1, 100, 1 << 20, -(1 << 20)} {
+		sh := c13EnumShared{K8: 3, P8: int8(x), K16: 3, P16: int16(x), K64: 3, P64: x << 20, KI: 3, PI: int(x) << 20, L: []int64{x << 30, 1}, M: map[int8]int16{int8(x): int16(x)}}
+		sh.N.Q, sh.N.R = x<<33, int8(x)
+		own := c13EnumOwn{K8: 3, P8: sh.P8, K16: 3, P16: sh.P16, K64: 3, P64: sh.P64, KI: 3, PI: sh.PI, L: sh.L, M: sh.M, N: sh.N}
+		pairs := [][2]any{{sh, own}, {c13EnumSharedRev{P8: sh.P8, K8: 3, P64: sh.P64, K64: 3}, c13EnumOwnRev{P8: sh.P8, K8: 3, P64: sh.P64, K64: 3}}}
+		for pi, pr := range pairs {
+			for _, pn := range protoNames {
+				p := protoOf(pn)
+				k := thriftCase{Proto: pn, What: fmt.Sprintf("declaration orders: enum twins value=%d pair=%d", vi, pi)}
+				var a, b []byte
+				var e1, e2 error
+				c.Case()
+				c.Eval(2)
+				// the twin first: its codec must not depend on what was built before
+				if pan := protect(func() { b, e2 = thrift.Marshal(p, pr[1]); a, e1 = thrift.Marshal(p, pr[0]) }); pan != "" || e1 != nil || e2 != nil {
+					c.Diverge("C13", "thrift.Marshal(an enum field and plain uses of its Go type)["+pn+"]", "bytes", fmt.Sprintf("%v %v %s", e1, e2, pan), "", k)
+					continue
+				}
+				if !bytes.Equal(a, b) {
+					c.Diverge("C13", "thrift.Marshal(an enum field and plain uses of its Go type)["+pn+"]", hex.EncodeToString(b), hex.EncodeToString(a), "", k)
+					continue
+				}
+				back := reflect.New(reflect.TypeOf(pr[0]))
+				var err error
+				if pan := protect(func() { err = thrift.Unmarshal(p, a, back.Interface()) }); pan != "" || err != nil || !reflect.DeepEqual(back.Elem().Interface(), pr[0]) {
+					c.Diverge("C13", "thrift.Unmarshal(Marshal(v))(an enum field and plain uses of its Go type)["+pn+"]", fmt.Sprintf("%+v", pr[0]),
+						fmt.Sprintf("%+v err=%v %s", back.Elem().Interface(), err, pan), "", k)
+				}
+			}
+		}
+	}
+}
+
 // fields reached through three and more levels of embedding (by value and through a pointer): each under its own id
 func c13DeepEmbedding(c *Ctx) {
 	for _, v := range []any{c13Outer{c13Middle{c13Inner{c13Core{1, 2, 3, "w"}}}}, c13Outermost{c13Outer{c13Middle{c13Inner{c13Core{1, 2, 3, "w"}}}}, 9}, c13Middle{c13Inner{c13Core{1, 2, 3, "w"}}}} {
@@ -696,6 +781,7 @@ func c13DeepEmbedding(c *Ctx) {
 
 func c13DeclarationOrders(c *Ctx) {
 	c13DeepEmbedding(c)
+	c13EnumTwins(c)
 	vals := []c13Desc{
 		{F30: 30, F2: 2, F17: "s", c13Emb: c13Emb{E1: 1, E9: true}, F3: true, F16: 16},
 		{F30: 30, F2: 2}, {F2: 2, c13Emb: c13Emb{E1: 1}}, {F17: "x", F16: 16}, {F30: 1, F3: true}, {c13Emb: c13Emb{E9: true}, F3: true},
@@ -972,6 +1058,32 @@ type EmbTop struct {
 	I int16 `thrift:"7"`
 }
 
+// embedded structs with required and optional fields: what the flattening may leave out is decided field by field
+// (a required field is written even when the whole embedded struct holds nothing)
+type EmbReqIn struct {
+	R int32  `thrift:"1,required"`
+	S string `thrift:"2,required"`
+	O int32  `thrift:"3,optional"`
+	P bool   `thrift:"6"`
+}
+type EmbReqVal struct {
+	EmbReqIn
+	X int32 `thrift:"4"`
+}
+type EmbReqPtr struct {
+	*EmbReqIn
+	X int32 `thrift:"4"`
+}
+type EmbReqDeep struct {
+	EmbReqVal
+	Y bool `thrift:"5,required"`
+}
+type EmbReqOuter struct {
+	A int64       `thrift:"1"`
+	V EmbReqVal   `thrift:"2"`
+	L []EmbReqVal `thrift:"3"`
+}
+
 // c04Recursive: a struct type that contains itself through a map / list / pointer (the decoder of such a field is
 // entered again while it is at work), and the same round trips behind a decode of the same type that failed half-way
 type RecTree struct {
@@ -1204,6 +1316,11 @@ func c04Embedded(c *Ctx) {
 		EmbTop{EmbL0: EmbL0{EmbL1: EmbL1{EmbL2: &EmbL2{EmbL3: l3, D: 4}, F: true}, G: "g"}, I: 7},
 		EmbTop{EmbL0: EmbL0{EmbL1: EmbL1{EmbL2: &EmbL2{EmbL3: EmbL3{A: 1}}}}},
 		EmbTop{EmbL0: EmbL0{EmbL1: EmbL1{EmbL2: &EmbL2{EmbL3: EmbL3{B: 2, H: 3}}}}, I: 1},
+		EmbReqVal{}, EmbReqVal{X: 4}, EmbReqVal{EmbReqIn: EmbReqIn{R: 1}}, EmbReqVal{EmbReqIn: EmbReqIn{S: "s"}, X: 4},
+		EmbReqVal{EmbReqIn: EmbReqIn{O: 3}}, EmbReqVal{EmbReqIn: EmbReqIn{P: true}}, EmbReqVal{EmbReqIn: EmbReqIn{R: 1, S: "s", O: 3, P: true}, X: 4},
+		EmbReqPtr{EmbReqIn: &EmbReqIn{}}, EmbReqPtr{EmbReqIn: &EmbReqIn{}, X: 4}, EmbReqPtr{EmbReqIn: &EmbReqIn{R: 1, S: "s"}, X: 4},
+		EmbReqDeep{}, EmbReqDeep{Y: true}, EmbReqDeep{EmbReqVal: EmbReqVal{X: 4}}, EmbReqDeep{EmbReqVal: EmbReqVal{EmbReqIn: EmbReqIn{S: "s"}}, Y: true},
+		EmbReqOuter{}, EmbReqOuter{A: 1, L: []EmbReqVal{{}, {X: 4}, {EmbReqIn: EmbReqIn{R: 1}}, {}}}, EmbReqOuter{V: EmbReqVal{X: 4}, L: []EmbReqVal{}},
 	}
 	for i, v := range vals {
 		for _, pn := range []string{"binary", "binary-nonstrict", "compact"} {
@@ -2145,7 +2262,129 @@ func c08Messages(c *Ctx) {
 	}
 }
 
+// c08ElementTypes: strict mode and the types announced in the headers of lists, sets and maps: a header that announces
+// another element, key or value type than the target declares is a wrong wire type, with 0, 1 and 2 elements behind it,
+// as a field, inside a nested struct and as the top-level value.  (F-C08-9: for EMPTY sets and empty binary-protocol
+// maps the pinned code returns before it looks at the types; lists are checked also when empty.)
+func c08ElementTypes(c *Ctx) {
+	type inner struct {
+		L []string `thrift:"1"`
+	}
+	type target struct {
+		L  []string            `thrift:"1"`
+		S  map[string]struct{} `thrift:"2"`
+		M  map[string]int32    `thrift:"3"`
+		LS []inner             `thrift:"4"`
+		N  inner               `thrift:"5"`
+		LL [][]int64           `thrift:"6"`
+	}
+	for _, pn := range protoNames {
+		p := protoOf(pn)
+		for n := int32(0); n <= 2; n++ {
+			for _, kind := range []string{"list", "list-of-structs", "list-in-struct", "list-in-list", "set", "map-key", "map-value", "top-level list", "top-level set", "top-level map"} {
+				var w bytes.Buffer
+				wr := p.NewWriter(&w)
+				ints := func() {
+					for i := int32(0); i < n; i++ {
+						wr.WriteInt32(7 + i)
+					}
+				}
+				var tgt any = &target{}
+				empty := false // F-C08-9 applies
+				switch kind {
+				case "list":
+					wr.WriteField(thrift.Field{ID: 1, Type: thrift.LIST})
+					wr.WriteList(thrift.List{Size: n, Type: thrift.I32})
+					ints()
+					wr.WriteField(thrift.Field{Type: thrift.STOP})
+				case "list-of-structs":
+					wr.WriteField(thrift.Field{ID: 4, Type: thrift.LIST})
+					wr.WriteList(thrift.List{Size: n, Type: thrift.I32})
+					ints()
+					wr.WriteField(thrift.Field{Type: thrift.STOP})
+				case "list-in-struct":
+					wr.WriteField(thrift.Field{ID: 5, Type: thrift.STRUCT})
+					wr.WriteField(thrift.Field{ID: 1, Type: thrift.LIST})
+					wr.WriteList(thrift.List{Size: n, Type: thrift.I32})
+					ints()
+					wr.WriteField(thrift.Field{Type: thrift.STOP})
+					wr.WriteField(thrift.Field{Type: thrift.STOP})
+				case "list-in-list":
+					wr.WriteField(thrift.Field{ID: 6, Type: thrift.LIST})
+					wr.WriteList(thrift.List{Size: 1, Type: thrift.LIST})
+					wr.WriteList(thrift.List{Size: n, Type: thrift.I32})
+					ints()
+					wr.WriteField(thrift.Field{Type: thrift.STOP})
+				case "set":
+					wr.WriteField(thrift.Field{ID: 2, Type: thrift.SET})
+					wr.WriteSet(thrift.Set{Size: n, Type: thrift.I32})
+					ints()
+					wr.WriteField(thrift.Field{Type: thrift.STOP})
+					empty = n == 0
+				case "map-key":
+					wr.WriteField(thrift.Field{ID: 3, Type: thrift.MAP})
+					wr.WriteMap(thrift.Map{Size: n, Key: thrift.I32, Value: thrift.I32})
+					ints()
+					ints()
+					wr.WriteField(thrift.Field{Type: thrift.STOP})
+					empty = n == 0
+				case "map-value":
+					wr.WriteField(thrift.Field{ID: 3, Type: thrift.MAP})
+					wr.WriteMap(thrift.Map{Size: n, Key: thrift.BINARY, Value: thrift.I64})
+					for i := int32(0); i < n; i++ {
+						wr.WriteString("k" + strconv.Itoa(int(i)))
+						wr.WriteInt64(7)
+					}
+					wr.WriteField(thrift.Field{Type: thrift.STOP})
+					empty = n == 0
+				case "top-level list":
+					wr.WriteList(thrift.List{Size: n, Type: thrift.I32})
+					ints()
+					tgt = &[]string{}
+				case "top-level set":
+					wr.WriteSet(thrift.Set{Size: n, Type: thrift.I32})
+					ints()
+					tgt = &map[string]struct{}{}
+					empty = n == 0
+				case "top-level map":
+					wr.WriteMap(thrift.Map{Size: n, Key: thrift.I32, Value: thrift.I32})
+					ints()
+					ints()
+					tgt = &map[string]int32{}
+					empty = n == 0
+				}
+				if n == 0 && pn == "compact" && strings.Contains(kind, "map") {
+					continue // the compact protocol's empty map is one byte: no types are announced
+				}
+				k := thriftCase{Proto: pn, What: fmt.Sprintf("element types: %s, %d element(s)", kind, n)}
+				var derr error
+				c.Case()
+				c.Eval(1)
+				pan := protect(func() {
+					d := thrift.NewDecoder(p.NewReader(bytes.NewReader(w.Bytes())))
+					d.SetStrict(true)
+					derr = d.Decode(tgt)
+				})
+				var tm *thrift.TypeMismatch
+				if pan != "" || !errors.As(derr, &tm) {
+					finding := ""
+					if empty && pan == "" && derr == nil {
+						finding = "F-C08-9"
+					}
+					c.Diverge("C08", "Decoder.Decode(strict, header of a "+kind+" announces another type)["+pn+"]", "TypeMismatch",
+						fmt.Sprintf("err=%v %s bytes=%x", derr, pan, w.Bytes()), finding, k)
+				}
+				// without strict mode: any verdict, no panic
+				if pan := protect(func() { thrift.Unmarshal(p, w.Bytes(), tgt) }); pan != "" {
+					c.Diverge("C08", "thrift.Unmarshal(header of a "+kind+" announces another type)["+pn+"]", "an error at worst", pan, "", k)
+				}
+			}
+		}
+	}
+}
+
 func c08ForeignBools(c *Ctx) {
+	c08ElementTypes(c)
 	c08IdZero(c)
 	c08TopLevelTargets(c)
 	c08Messages(c)
@@ -2274,7 +2513,7 @@ func c08Replay(c *Ctx, raw stdjson.RawMessage) {
 			c08Alloc(c, k.Alloc)
 			return
 		}
-		if strings.HasPrefix(k.What, "foreign bools") || k.What == "field id 0" || strings.HasPrefix(k.What, "top-level targets") || strings.HasPrefix(k.What, "message headers") {
+		if strings.HasPrefix(k.What, "foreign bools") || k.What == "field id 0" || strings.HasPrefix(k.What, "top-level targets") || strings.HasPrefix(k.What, "message headers") || strings.HasPrefix(k.What, "element types") {
 			c08ForeignBools(c)
 			return
 		}
